@@ -3,10 +3,11 @@
 (* configuration cases of C20 (also the generator of leg R: GenSpec / EmitCase).          *)
 (*   save : ResolvePath -> Write -> ReadBack        plot : Draw                            *)
 (* Model coordinates have 7 decimals (integers * 1e-7) so that rounding to 6 is visible.  *)
-(* Named deviations: Decimals = 5 (format 1.5f), NoClose = TRUE (closing point missing).       *)
+(* Named deviations: Decimals = 5 (format 1.5f), NoClose = TRUE (closing point missing),        *)
+(* RawHeader = TRUE (line breaks of the semantics strings written into the header).               *)
 EXTENDS ExportOps, TLC, Json
 
-CONSTANTS Decimals, NoClose, AlwaysTxt
+CONSTANTS Decimals, NoClose, AlwaysTxt, RawHeader
 VARIABLES pc, cfg, fpath, lines, parsed, poly
 
 vars == <<pc, cfg, fpath, lines, parsed, poly>>
@@ -14,7 +15,10 @@ vars == <<pc, cfg, fpath, lines, parsed, poly>>
 (* alphabet of semantics strings: "Hs", "Wave height", "a;b", "hoehe" with o-umlaut,       *)
 (* Greek theta, "m" + superscript two, the empty string, "x (y)"                          *)
 Str == << <<72, 115>>, <<87, 97, 118, 101, 32, 104, 101, 105, 103, 104, 116>>, <<97, 59, 98>>,
-          <<104, 246, 104, 101>>, <<952>>, <<109, 178>>, <<>>, <<120, 32, 40, 121, 41>> >>
+          <<104, 246, 104, 101>>, <<952>>, <<109, 178>>, <<>>, <<120, 32, 40, 121, 41>>,
+          \* with line breaks: "Significant wave" LF "height", "a" CR LF "b", "a" CR "b", LF "lead", "trail" LF
+          <<83, 105, 103, 110, 105, 102, 105, 99, 97, 110, 116, 32, 119, 97, 118, 101, 10, 104, 101, 105, 103, 104, 116>>,
+          <<97, 13, 10, 98>>, <<97, 13, 98>>, <<10, 108, 101, 97, 100>>, <<116, 114, 97, 105, 108, 10>> >>
 NStr == Len(Str)
 NameOf(s, d) == Str[((s + d) % NStr) + 1]
 UnitOf(s, d) == Str[((s + 3 * d + 2) % NStr) + 1]
@@ -28,16 +32,23 @@ Paths == << <<111, 117, 116>>, <<111, 117, 116, 46, 116, 120, 116>>, <<111, 117,
 
 (* the contour object: a stand-in with npts points, or a real contour of one of the 2-D classes  *)
 (* (then npts is only a place holder).  aspath: the path is handed over as a pathlib.Path.       *)
-RealObjs == {"iform", "isorm", "hdc", "ds", "and", "or"}
+(* "hdc_multiregion": a highest density contour whose region has several parts (2-D bimodal   *)
+(* model); "hdc_multiregion3d": the same in 3-D (saving only)                                  *)
+RealObjs == {"iform", "isorm", "hdc", "ds", "and", "or", "hdc_multiregion"}
 Objs == {"standin"} \cup RealObjs
+DcKinds == {"none", "true", "array", "list", "tuple", "tuples"}
 SaveCases == {c \in [fn : {"save"}, obj : Objs, npts : 1..4, ndim : {2, 3}, sem : 0..NStr,
                      path : 1..Len(Paths), aspath : BOOLEAN] :
                 /\ (c.obj # "standin" => c.npts = 4 /\ c.ndim = 2 /\ c.sem \in {0, 3} /\ c.path \in {1, 2, 4})
                 /\ (c.aspath => c.sem \in {0, 3} /\ c.npts \in {2, 4})}
-PlotCases == {c \in [fn : {"plot"}, obj : Objs, npts : 1..4, swap : BOOLEAN, dc : {"none", "true", "array"},
+Save3d == [fn : {"save"}, obj : {"hdc_multiregion3d"}, npts : {4}, ndim : {3}, sem : {0, 3},
+           path : {1, 4}, aspath : BOOLEAN]
+DesignCases == [fn : {"design"}, obj : RealObjs, swap : BOOLEAN]
+PlotCases == {c \in [fn : {"plot"}, obj : Objs, npts : 1..4, swap : BOOLEAN, dc : DcKinds,
                      sample : BOOLEAN, sem : {0, 3}, axgiven : BOOLEAN] :
                 /\ (c.dc = "true" => c.npts >= 3)
-                /\ (c.obj # "standin" => c.npts = 4 /\ ~c.axgiven)}
+                /\ (c.obj # "standin" => c.npts = 4 /\ ~c.axgiven)
+                /\ (c.dc \in {"list", "tuple", "tuples"} => c.sem = 0 /\ c.npts \in {1, 4})}
 
 (* model coordinates, units of 1e-7 *)
 V7 == <<12345675, -5, 25000000, 30000005, 0, -99999995, 4, 15, -12345685, 999999995>>
@@ -88,16 +99,17 @@ ResolvePath ==
 
 Write ==
     /\ pc = "path"
-    /\ lines' = <<Header(Names(cfg), Units(cfg))>> \o
+    /\ lines' = SplitBreaks(IF RawHeader THEN Header(Names(cfg), Units(cfg))
+                                          ELSE Flat(Header(Names(cfg), Units(cfg))), <<>>) \o
                 [k \in 1..cfg.npts |->
                    Join(<<Semi>>, [d \in 1..cfg.ndim |-> FmtN(RoundTo(Coord7(k, d), Decimals), Decimals)])]
     /\ pc' = "written"
     /\ UNCHANGED <<cfg, fpath, parsed, poly>>
 
-ReadBack ==
+ReadBack ==          \* the data rows are the last npts lines of the file
     /\ pc = "written"
-    /\ parsed' = [k \in 1..(Len(lines) - 1) |->
-                    LET f == Split(lines[k + 1], Semi) IN [d \in 1..Len(f) |-> ParseFix(f[d])]]
+    /\ parsed' = [k \in 1..cfg.npts |->
+                    LET f == Split(lines[Len(lines) - cfg.npts + k], Semi) IN [d \in 1..Len(f) |-> ParseFix(f[d])]]
     /\ pc' = "done"
     /\ UNCHANGED <<cfg, fpath, lines, poly>>
 
@@ -121,6 +133,9 @@ PathRule == Saved => (fpath = Paths[cfg.path] <=> HasExt(Paths[cfg.path]))
             /\ (Saved /\ ~HasExt(Paths[cfg.path]) => fpath = Paths[cfg.path] \o TxtExt)
 (* one header line + one row per point, one ';'-separated field per dimension *)
 Shape == Saved => Len(lines) = 1 + cfg.npts /\ \A k \in 1..cfg.npts : Len(parsed[k]) = cfg.ndim
+(* exactly one header line, whatever the semantics strings contain *)
+OneHeaderLine == Saved => Len(lines) = 1 + cfg.npts /\ ~HasBreak(lines[1])
+                           /\ Solid(lines[1]) = Solid(Header(Names(cfg), Units(cfg)))
 (* the parsed values are the coordinates rounded to 6 decimals *)
 ParsedIsRound6 == Saved => \A k \in 1..cfg.npts : \A d \in 1..cfg.ndim :
                      parsed[k][d] = Signed(RoundTo(Coord7(k, d), 6))
@@ -133,10 +148,14 @@ ClosedPolyline == Drawn =>
     /\ \A k \in 1..cfg.npts : poly[k] = (IF cfg.swap THEN <<Coord7(k, 2), Coord7(k, 1)>> ELSE <<Coord7(k, 1), Coord7(k, 2)>>)
 
 ----------------------------------------------------------------------------
-(* leg R: the initial states are the cases *)
-GenSpec == Init /\ [][UNCHANGED vars]_vars
+(* leg R: the initial states are the cases (plus the cases that only the driver executes) *)
+GenInit ==
+    /\ pc = "start" /\ cfg \in SaveCases \cup PlotCases \cup Save3d \cup DesignCases
+    /\ fpath = <<>> /\ lines = <<>> /\ parsed = <<>> /\ poly = <<>>
+GenSpec == GenInit /\ [][UNCHANGED vars]_vars
 CaseJson(c) ==
-    IF c.fn = "save"
+    IF c.fn = "design" THEN [fn |-> "design", obj |-> c.obj, swap |-> c.swap]
+    ELSE IF c.fn = "save"
     THEN [fn |-> "save", obj |-> c.obj, aspath |-> c.aspath, npts |-> c.npts, ndim |-> c.ndim, sem |-> c.sem,
           names |-> Names(c), units |-> Units(c), path |-> Paths[c.path]]
     ELSE [fn |-> "plot", obj |-> c.obj, npts |-> c.npts, swap |-> c.swap, dc |-> c.dc, sample |-> c.sample, sem |-> c.sem,
